@@ -6,7 +6,7 @@
 (* calls the routines and compares with the printed answers.                   *)
 EXTENDS Structural, Json
 
-CONSTANTS Mode,      \* "dir" | "und" | "part" | "prod" | "gen" | "grid"
+CONSTANTS Mode,      \* "dir" | "und" | "part" | "prod" | "prodx" | "gen" | "grid"
           NMin, NMax, \* node counts enumerated
           Salt,      \* weight salt (VERIF_SEED)
           Palette    \* "part": colours a partial colouring may use
@@ -18,6 +18,17 @@ DirGraphs == UNION {{[V |-> 1 .. n, E |-> D] : D \in SUBSET DirPairs(n)} : n \in
 UndGraphs(lo, hi) == UNION {{[V |-> 1 .. n, E |-> Sym(U)] : U \in SUBSET UPairs(n)} : n \in lo .. hi}
 
 None == 99   \* "uncoloured" in a partial colouring
+
+(* "prodx": the products over arcs.  An input is a digraph on <= NMax nodes together with the kind of container *)
+(* that holds it: "und" (possible only when the arc set is symmetric: every undirected graph) or directed (every *)
+(* digraph, the symmetric ones too).  Every ordered pair of inputs is a case: undirected x undirected,          *)
+(* undirected x directed, directed x undirected, directed x directed; each case is replayed into a directed and *)
+(* an undirected destination.  Arc weights for the weight-equality agreement function of ModularExt: 1 or 2 by a *)
+(* salted formula, symmetric when the input is held in an undirected container.                                  *)
+DirGraphsTo(m) == UNION {{[V |-> 1 .. n, E |-> D] : D \in SUBSET DirPairs(n)} : n \in 0 .. m}
+StoredGraphs(m) == {s \in [g : DirGraphsTo(m), und : BOOLEAN] : s.und => Sym(s.g.E) = s.g.E}
+WBase(which, u, v) == ((u * 3 + v * 5 + u * v * Salt + which * 7 + Salt) % 2) + 1
+ArcW(which, und, E) == [e \in E |-> IF und THEN WBase(which, Min({e[1], e[2]}), Max({e[1], e[2]})) ELSE WBase(which, e[1], e[2])]
 
 (* "grid": the FULL small grid of the deterministic generators.  Model ids 1 .. NMax for the listed nodes,    *)
 (* NMax + 1 for the centre of Star / Wheel, NMax + 2 for a node that is no argument of the call (it is only   *)
@@ -54,6 +65,7 @@ Cases == CASE Mode = "dir"  -> DirGraphs
            [] Mode = "und"  -> UndGraphs(NMin, NMax)
            [] Mode = "part" -> UNION {{[V |-> h.V, E |-> h.E, part |-> p] : p \in [h.V -> Palette \cup {None}]} : h \in UndGraphs(NMin, NMax)}
            [] Mode = "prod" -> {[a |-> x, b |-> y] : x \in UndGraphs(0, NMax), y \in UndGraphs(0, NMax)}
+           [] Mode = "prodx" -> {[a |-> x, b |-> y] : x \in StoredGraphs(NMax), y \in StoredGraphs(NMax)}
            [] Mode = "gen"  -> [kind : {"Complete", "Path", "Cycle", "Star", "Wheel", "Tree"}, fan : 1 .. 3, ids : UNION {[1 .. n -> 1 .. NMax] : n \in 0 .. NMax}]
            [] Mode = "grid" -> GridCases
 
@@ -101,6 +113,47 @@ ProdRec(a, b) ==
      prods |-> [kind \in ProductKinds |->
                  {pq \in ProductEdges(kind, a.V, a.E, b.V, b.E) : pq[1][1] < pq[2][1] \/ (pq[1][1] = pq[2][1] /\ pq[1][2] < pq[2][2])}]]
 
+\* the products over arcs: per product the arcs a directed destination must hold and the edges an undirected one must hold
+ExtKeys == {"ModularExt:false", "ModularExt:weq"}
+ProdXArcs(key, sa, sb) ==
+    IF key \in ProductKinds THEN ProductArcs(key, sa.g.V, sa.g.E, sb.g.V, sb.g.E)
+    ELSE ModularExtArcs(IF key = "ModularExt:false" THEN "false" ELSE "weq",
+                        sa.g.V, sa.g.E, ArcW(0, sa.und, sa.g.E), sb.g.V, sb.g.E, ArcW(1, sb.und, sb.g.E))
+StoredEdges(s) == IF s.und THEN UEdges(s.g.E) ELSE s.g.E
+ProdXRec(sa, sb) ==
+    LET Wa == ArcW(0, sa.und, sa.g.E)
+        Wb == ArcW(1, sb.und, sb.g.E)
+        A == [key \in ProductKinds \cup ExtKeys |-> ProdXArcs(key, sa, sb)]
+    IN [k |-> "prodx", na |-> Cardinality(sa.g.V), aund |-> sa.und, ea |-> StoredEdges(sa),
+        wa |-> {<<e[1], e[2], Wa[e]>> : e \in StoredEdges(sa)},
+        nb |-> Cardinality(sb.g.V), bund |-> sb.und, eb |-> StoredEdges(sb),
+        wb |-> {<<e[1], e[2], Wb[e]>> : e \in StoredEdges(sb)},
+        nodes |-> IF sa.g.V = {} \/ sb.g.V = {} THEN {} ELSE sa.g.V \X sb.g.V,
+        arcs |-> A,                                                   \* what a directed destination holds
+        uedges |-> [key \in DOMAIN A |-> DstHolds(FALSE, A[key])],    \* what an undirected destination holds
+        \* an agreement function that is always true, and no agreement function, give the Modular product
+        alias |-> [key \in {"ModularExt:true", "ModularExt:nil"} |-> "Modular"]]
+\* R1 with every "prodx" case: the alias claim, the weight-equality product lies between the always-false one and
+\* Modular, symmetric inputs give symmetric products (then an undirected destination holds half as many edges as a
+\* directed one holds arcs), and the two destinations hold the same pairs up to orientation
+ProdXOK == Mode = "prodx" =>
+    LET sa == c.a  sb == c.b
+        Wa == ArcW(0, sa.und, sa.g.E)
+        Wb == ArcW(1, sb.und, sb.g.E)
+        M == ProdXArcs("Modular", sa, sb)
+        F == ProdXArcs("ModularExt:false", sa, sb)
+        Q == ProdXArcs("ModularExt:weq", sa, sb)
+        Ext(ag) == ModularExtArcs(ag, sa.g.V, sa.g.E, Wa, sb.g.V, sb.g.E, Wb)
+    IN /\ Ext("true") = M /\ Ext("nil") = M
+       /\ F \subseteq Q /\ Q \subseteq M
+       /\ (sa.und => \A e \in sa.g.E : Wa[e] = Wa[<<e[2], e[1]>>]) /\ (sb.und => \A e \in sb.g.E : Wb[e] = Wb[<<e[2], e[1]>>])
+       /\ \A key \in ProductKinds \cup ExtKeys :
+             LET X == ProdXArcs(key, sa, sb) U == DstHolds(FALSE, X) IN
+             /\ DstHolds(TRUE, X) = X
+             /\ Sym(U) = Sym(X) /\ \A pq \in U : <<pq[2], pq[1]>> \notin U
+             /\ ((Sym(sa.g.E) = sa.g.E /\ Sym(sb.g.E) = sb.g.E /\ (key # "ModularExt:weq" \/ (sa.und /\ sb.und)))
+                    => (Sym(X) = X /\ 2 * Cardinality(U) = Cardinality(X)))
+
 GenRec(kind, fan, ids) ==
     LET ctr == NMax                                       \* centre id for Star / Wheel: may collide with a leaf
         pan == GenPanics(kind, ids, ctr, fan)             \* the documented panics
@@ -124,6 +177,7 @@ Rec == CASE Mode = "dir"  -> DirRec(c.V, c.E)
          [] Mode = "und"  -> UndRec(c.V, c.E)
          [] Mode = "part" -> PartRec(c.V, c.E, c.part)
          [] Mode = "prod" -> ProdRec(c.a, c.b)
+         [] Mode = "prodx" -> ProdXRec(c.a, c.b)
          [] Mode = "gen"  -> GenRec(c.kind, c.fan, c.ids)
          [] Mode = "grid" -> GridRec(c.kind, c.fan, c.ids, c.ctr, c.pre)
 EmitInv == PrintT(ToJson(Rec))
